@@ -432,7 +432,7 @@ def _run_case(case):
                 break
         nt.append("bounds:" + ";".join(a + "/" + b for a, b in zip(kl, ku)))
     else:  # problem level
-        spec = gen.general(rng, con=str(rng.choice(["lin", "both"])),
+        spec = gen.general(rng, xunit=False, con=str(rng.choice(["lin", "both"])),
                            bound_patterns=("two", "fixed", "two", "lower",
                                            "free"),
                            maxfev=(1, 1), opt_allow=("scale",))
